@@ -247,6 +247,31 @@ def extract(repo, failures):
     if not d["jsonUsesRewrittenTemplate"]:
         failures.append("JsonSink::write_log: the rewritten template is not what is passed to generate_json_message")
 
+    # the line buffer across statements: where `_json_message.clear()` sits relative to the (virtual, possibly throwing)
+    # generate_json_message call and the base write_log call; both at the top level of the function body
+    wl_nolit = re.sub(r'"(?:[^"\\\n]|\\.)*"|\'(?:[^\'\\\n]|\\.)*\'', lambda m_: " " * len(m_.group(0)), wl)   # same offsets, literals blanked
+
+    def depth_at(body, pos):
+        return wl_nolit[:pos].count("{") - wl_nolit[:pos].count("}")
+    mg = re.search(r"\bgenerate_json_message\s*\(", wl)
+    mw = re.search(r"\b(?:StreamSink|base_type|TBase|FileSink)::write_log\s*\(", wl)
+    clears = [m_.start() for m_ in re.finditer(r"_json_message\.clear\s*\(\s*\)\s*;", wl) if depth_at(wl, m_.start()) == 0]
+    if not mg:
+        failures.append("JsonSink::write_log: the generate_json_message call was not found")
+    if not mw:
+        failures.append("JsonSink::write_log: the base write_log call was not found")
+    d["jsonClearBefore"] = bool(mg and any(c < mg.start() for c in clears))
+    wend = wl.find(";", mw.start()) if mw else -1
+    d["jsonClearAfter"] = bool(mw and any(c > wend for c in clears))
+    d["jsonWriteOrderOK"] = bool(mg and mw and mt and depth_at(wl, mg.start()) == 0 and depth_at(wl, mw.start()) == 0
+                                 and mg.start() < mt.start() < mw.start()
+                                 and re.search(r"std::string_view\s*\{\s*_json_message\.data\s*\(\s*\)\s*,\s*_json_message\.size\s*\(\s*\)\s*\}\s*\)\s*;",
+                                               wl[mw.start():wend + 1] if mw else ""))
+    if not d["jsonWriteOrderOK"]:
+        failures.append("JsonSink::write_log: order generate_json_message; append tail; base write_log(…, _json_message) not recognised")
+    d["jsonGenerateIsVirtual"] = bool(re.search(r"virtual\s+void\s+generate_json_message\s*\(", js))
+    d["jsonBufferIsMember"] = bool(re.search(r"fmtquill::memory_buffer\s+_json_message\s*;", js))
+
     # ---- LOGJ_ ----------------------------------------------------------------------------------------
     lm = read(repo, "include/quill/LogMacros.h").replace("\\\n", " ")
     logj = {}
@@ -296,6 +321,11 @@ def extract(repo, failures):
     L.append("def jsonTail : Named.Str := %s" % lean_chars(d["jsonTail"]))
     L.append("def jsonNlChar : Char := %s" % lean_char(d["jsonNlChar"]))
     L.append("def jsonNlRepl : Named.Str := %s" % lean_chars(d["jsonNlRepl"]))
+    L.append("/-- `JsonSink::write_log`: `_json_message.clear()` before the generate_json_message call / after the base write -/")
+    L.append("def jsonSinkParams : Named.JSinkParams := { clearBefore := %s, clearAfter := %s }" % (
+        lean_bool(d["jsonClearBefore"]), lean_bool(d["jsonClearAfter"])))
+    L.append("/-- generate_json_message; append the tail; base write_log with the buffer — in this order, unconditionally -/")
+    L.append("def jsonWriteOrderOK : Bool := %s" % lean_bool(d["jsonWriteOrderOK"]))
     L.append("/-- character literals compared with `==` in `_contains_named_args`, in source order -/")
     L.append("def detectEqChars : Named.Str := %s" % lean_chars(d["detectEqChars"]))
     L.append("def detectAlphaRanges : List (Char × Char) := [%s]" % ", ".join(
@@ -319,6 +349,7 @@ FALLBACK = ({"separator": [1, 2, 3], "jsonLayout": []},
             "def separator : Named.Str := []\ndef jsonLayout : List (Named.Str × Named.HdrField) := []\n"
             "def jsonArgOpen : Named.Str := []\ndef jsonArgMid : Named.Str := []\ndef jsonArgClose : Named.Str := []\n"
             "def jsonTail : Named.Str := []\ndef jsonNlChar : Char := ' '\ndef jsonNlRepl : Named.Str := []\n"
+            "def jsonSinkParams : Named.JSinkParams := { clearBefore := false, clearAfter := false }\ndef jsonWriteOrderOK : Bool := false\n"
             "def detectEqChars : Named.Str := []\ndef detectAlphaRanges : List (Char × Char) := []\n"
             "def detectNeedsCount : Bool := false\ndef detectTrailingInc : Bool := false\n"
             "def processFindChars : Named.Str := []\ndef processColon : Char := ' '\ndef processAdjacentTests : Nat := 0\n"
